@@ -63,6 +63,23 @@ func caseC05(c *Ctx) {
 		fo.maxRoots = 1
 	}
 	forest := genForest(c, fo)
+	if c.Chance(1, 10) {
+		// long names: the document outgrows bufio.Scanner's initial 4 KiB buffer
+		var pad func(n *MNode)
+		pad = func(n *MNode) {
+			n.Name += "-" + strings.Repeat("n", 180)
+			for _, k := range n.Kids {
+				pad(k)
+			}
+		}
+		for _, r := range forest {
+			pad(r)
+		}
+		for len(canonicalDoc(forest)) < 9000 {
+			forest[0].Kids = append(forest[0].Kids, &MNode{Name: fmt.Sprintf("pad%d-%s", len(forest[0].Kids), strings.Repeat("p", 200))})
+		}
+		c.st.Count("document>4KiB")
+	}
 	branch := branchSets[c.Pick(3, 1, 1, 1, 1, 1, 1)]
 	op := Op{Kind: "walk", Branch: branch}
 	switch form {
